@@ -69,8 +69,21 @@ class BuildLock:
 # ---------------------------------------------------------------- Coq side
 
 def regenerate():
+    """run the translator; returns (all_ok, output, set of gen file names whose tie is broken)"""
     rc, out, _ = sh([sys.executable, os.path.join(VERIF, "tools", "rs2v.py")], timeout=120)
-    return rc == 0, out
+    failed = set(re.findall(r"TIE BROKEN \(([^)]+)\)", out))
+    if rc != 0 and not failed:
+        failed = {"*"}
+    return rc == 0, out, failed
+
+
+def regen_for(o, gen_files):
+    """regenerate; only a broken tie of one of `gen_files` (names like 'Consts.v') concerns the caller"""
+    ok, out, failed = regenerate()
+    mine = {f for f in failed if f == "*" or f in gen_files}
+    if mine:
+        o.obligation_broken("translator tools/rs2v.py (tie to /repo sources): " + ", ".join(sorted(mine)), out)
+    return not mine
 
 
 def ensure_makefile():
@@ -465,11 +478,14 @@ TRUSTED_BASE_COMMON = [
 
 def proof_side(o: Outcome, props_file, pins=None, extra_files=()):
     """steps 1-3 of DESIGN §1.3 for one property: regenerate, build, audit, count"""
-    ok, out = regenerate()
-    if not ok:
-        o.obligation_broken("translator tools/rs2v.py (tie to /repo sources)", out)
+    ok, out, failed = regenerate()
+    ensure_makefile()
+    targets = [props_file] + list(extra_files)
+    cone0 = coq_deps(targets)
+    mine = {f for f in failed if f == "*" or ("gen/" + f) in cone0}
+    if mine:
+        o.obligation_broken("translator tools/rs2v.py (tie to /repo sources): " + ", ".join(sorted(mine)), out)
     with BuildLock():
-        targets = [props_file] + list(extra_files)
         okb, outb, dt = coq_build(targets)
     cone = coq_deps(targets)
     stmts = count_statements(cone)
